@@ -384,6 +384,10 @@ def case_list(tier: str):
     strs = list(gen.plain_specs(N)) + list(gen.plain_specs(N - 1, alphabet=UNI)) + list(gen.eqpair_specs(N)) + list(gen.explicit_id_specs(N))
     strs += list(c05.idclone_specs(N, ids=("id7", 0, "")))
     out += [("str", s) for s in strs]
+    # *different* data filed under one explicit data_id (set_data(new, data_id=same, with_clones=False) / an id hook keyed by
+    # a guid leads there): every node keeps its own data, the group is still one clone group
+    shared = list(gen.shared_id_specs(N))
+    out += [("str", s) for s in shared]
     objs = list(gen.plain_specs(N)) + list(c05.idclone_specs(N)) + list(gen.explicit_id_specs(N - 1))
     for f in ("rec_inplace", "rec_new"):
         out += [(f, s) for s in objs]
